@@ -50,8 +50,8 @@ type histCase struct {
 func safeApply[I any](m *Machine[I], in I, op int, check bool) (out []string) {
 	defer func() {
 		if r := recover(); r != nil {
-			if _, dead := r.(deadlockPanic); dead {
-				heldMutexes.Range(func(k, _ any) bool { heldMutexes.Delete(k); return true })
+			if dp, dead := r.(deadlockPanic); dead {
+				heldMutexes.Delete(dp.mutex) // only this instance's mutex: other workers run concurrently
 				out = append(out, fmt.Sprintf("panic:deadlock:%s\x00%s tries to acquire a stack mutex it already holds (self-deadlock)", opClass(m.OpName(in, op)), m.OpName(in, op)))
 				return
 			}
